@@ -24,9 +24,9 @@ CLAIMS = {
    note=TB + "In the model the methods cannot read the object, so the content of the claim rests on the correspondence of histories (stale-memory reads in C would show as differing answers); crypt_ra is tied in by C14.",
    technique="Lean 4 proof by induction over histories + random-history correspondence", ref="DESIGN.md §6 C07"),
  "C01": dict(
-   text="Model of all 16 front-ends (parse + emit, digests as parameters) with full-output correspondence (every primitive is executable in Lean: MD4/MD5/SHA-1/SHA-2/Streebog/DES/Blowfish/yescrypt); Lean theorem that every result passes the generic setting filter; implementation oracle re-hashes every success with its result and with a setting whose hash portion is random.",
-   note=TB + "Per-method round-trip theorems (parse (emit ..) = ..) are being added method by method; until all sixteen exist the re-hash clause rests on the oracle over the grammar-shaped stream.",
-   technique="Lean 4 model + proof (partial), exact model/implementation correspondence, re-hash oracle", ref="DESIGN.md §6 C01"),
+   text="Lean theorems, for arbitrary digest functions: per-method front-end round trip (crypt_m p S = H implies crypt_m p H = H) and hash-part irrelevance (H = S' ++ digest and S' ++ ANY text gives H) for md5crypt, sha256crypt, sha512crypt, sha1crypt, NT, descrypt, bsdicrypt, bcrypt ($2a/$2b/$2x/$2y), bigcrypt (round trip); C01_roundtrip lifts them to the API level (length check, character filter, dispatch to the same table row) for every dispatch table that is TableOk, which C19 decides for all 65 536 configurations (C19_roundtrip_every_config); every result passes the generic setting filter. Model of all 16 front-ends with full-output correspondence (every primitive is executable in Lean); implementation oracle re-hashes every success with its result and with a setting whose hash portion is random.",
+   note=TB + "sunmd5, scrypt, yescrypt and gost-yescrypt have no round-trip theorem yet: for those four the re-hash clause rests on the oracle over the grammar-shaped stream and the exact correspondence.",
+   technique="Lean 4 proof (12 of 16 methods at API level, all configurations) + exact model/implementation correspondence + re-hash oracle", ref="DESIGN.md §6 C01"),
  "C06": dict(
    text="Lean theorem C06_safe for all 16 methods and any digests of the right length: a successful result is passwd-safe printable ASCII, non-empty, shorter than CRYPT_OUTPUT_SIZE, never starts with '*'; alphabets and fixed digest lengths decided over the tables generated from the tree; an independent per-method recogniser written from crypt(5) runs over the stream, every result goes back through crypt_checksalt and crypt_gensalt.",
    note=TB + "Field-structure theorems per method are partial (lengths/alphabets proved, exact decomposition checked by the recogniser).",
@@ -44,15 +44,15 @@ CLAIMS = {
    note=TB + "The OS CSPRNG is a parameter of the model; whole-writer injectivity is by the bit-flip oracle, proved only for the packer.",
    technique="Lean 4 proof (partial) + bit-flip oracle", ref="DESIGN.md §6 C12"),
  "C16": dict(
-   text="Lean theorem (generic Merkle-Damgard context): for every message and every chunking, final(update*(init)) equals the published one-shot definition; instantiated for MD4, MD5, SHA-1, SHA-256, SHA-512; HMAC built from streaming calls is RFC 2104; padding yields whole blocks. Compression functions and constants come from the tree; correspondence + hashlib/RFC oracles over lengths 0..1100, all split points, alignments, HMAC keys 0..200, PBKDF2 grids.",
-   note=TB + "Streebog and the PBKDF2 c=1 fast path are tied by correspondence and known-answer vectors only; counters are unbounded naturals in the model (the 2^61-byte carry code is not modelled).",
+   text="Lean theorem (generic Merkle-Damgard context): for every message and every chunking, final(update*(init)) equals the published one-shot definition; instantiated for MD4, MD5, SHA-1, SHA-256, SHA-512; Streebog-256/512 through Init/Update/Final equal their one-shot definition for every chunking (C16_streebog256/512_streaming); HMAC built from streaming calls is RFC 2104; padding yields whole blocks. Compression functions and constants come from the tree; correspondence + hashlib/RFC oracles over lengths 0..1100, all split points, alignments, HMAC keys 0..200, PBKDF2 grids.",
+   note=TB + "Streebog's compression (g_N over the tree's Ax/C tables) is tied to the standard by an independent exact-arithmetic implementation and the RFC 6986/7836 vectors, the PBKDF2 c=1 fast path by correspondence and hashlib only; counters are unbounded naturals in the model (the 2^61-byte carry code is not modelled).",
    technique="Lean 4 proof (streaming = one-shot) + exhaustive-split correspondence", ref="DESIGN.md §6 C16"),
  "C17": dict(
    text="Lean theorems (kernel evaluation): all ten DES lookup tables extracted from the tree equal the tables derived in Lean from the FIPS 46-3 permutations and S-boxes by the documented construction; key shifts as published. The table-driven model is compared with the code and with a bit-level FIPS 46-3 implementation (weight-1/63 keys and blocks, every salt bit, counts); setkey/encrypt/_r run through the freshly linked libcrypt.so.1 in random histories interleaved with crypt calls.",
    note=TB + "dec(enc(b)) = b and parity-independence are decided by the oracle, not yet by theorems (bit-vector reasoning without bv_decide).",
    technique="Lean 4 proof by kernel evaluation over generated tables + bit-level DES oracle", ref="DESIGN.md §6 C17"),
  "C19": dict(
-   text="Lean model of gen-crypt-hashes-h (mkTable/mkDefault) reproduces the tree's generated table (mkTable_ok); theorem C19_all_configs: for every one of the 65 536 subsets (kernel evaluation, 64 parallel chunks, plus a proof that every subset is numbered) the table is prefix-free with empty prefixes last, contains exactly the enabled methods under their own prefixes and entry points, and the default prefix is the first enabled default-capable method, strong and dispatched to itself. Correspondence: real builds (perl generators + gcc + shared link with --no-undefined) of 6 (quick) / ~80 (thorough) configurations driven with a corpus and compared with the model under that configuration and with the full build.",
+   text="Lean model of gen-crypt-hashes-h (mkTable/mkDefault) reproduces the tree's generated table (mkTable_ok); theorem C19_all_configs: for every one of the 65 536 subsets (kernel evaluation, 64 parallel chunks, plus a proof that every subset is numbered) the table is prefix-free with empty prefixes last, contains exactly the enabled methods under their own prefixes and entry points, and the default prefix is the first enabled default-capable method, strong and dispatched to itself; every configuration's table is TableOk, hence the API round trip of C01 holds in every configuration (C19_roundtrip_every_config). Correspondence: real builds (perl generators + gcc + shared link with --no-undefined) of 6 (quick) / ~80 (thorough) configurations driven with a corpus and compared with the model under that configuration and with the full build.",
    note=TB + "That every subset compiles is established only for the built ones; perl's sort is assumed stable (ties between the two empty prefixes).",
    technique="Lean 4 proof by exhaustive kernel evaluation over all 2^16 configurations + real per-configuration builds", ref="DESIGN.md §6 C19"),
  "C20": dict(
@@ -98,7 +98,7 @@ def main():
            "engines": [{"name": "xcverif", "path": "verif.py", "serves_properties": sorted(CLAIMS),
                         "kind_free_text": "Lean 4 theorems over a generated + hand-written model; translators regenerate the generated part from /repo on every run; a C harness and a Lean driver run the same op file for the correspondence; per-property oracle searches the implementation for a failing input"}],
            "checks": [], "not_applicable": [],
-           "notes": "fix: commits in /repo: 05a8488 (C13), 6db9970 (C12), 5081cef (C11), b269775 (C04), 2c336b0 (C01), a047975 (C04); see known_findings.json"}
+           "notes": "fix: commits in /repo: 05a8488 (C13), 6db9970 (C12), 5081cef (C11), b269775 (C04), 2c336b0 (C01), a047975 (C04), 3edb8c7 (C06); see known_findings.json"}
     for p in props:
         i = p["id"]
         if i in CLAIMS:
